@@ -469,15 +469,15 @@ class Gen:
                 ops.append(("insert", pts, None, "multiple"))
             else:
                 ops += [("insert", [p], None) for p in pts]
-            ops += [("index_valid",), ("iter",)] + self.file_obs()
+            ops += self.file_obs() + [("index_valid",), ("iter",)]
         n_ops = n_ops or r.choice([4, 6, 8, 12])
         allow_raise = self.profile.get("allow_raise", True)
         for _ in range(n_ops):
             c = r.random()
             if c < self.profile.get("p_write", 0.45):
                 ops.append(self.write_op(csv, allow_raise))
-                ops += [("index_valid",), ("iter",)]
-                ops += self.file_obs()
+                # the file first: reading through the database seeks, which flushes what the handle still buffers
+                ops += self.file_obs() + [("index_valid",), ("iter",)]
             elif c < self.profile.get("p_plain", 0.9):
                 ops.append(self.read_op())
                 if r.random() < 0.3:
